@@ -502,4 +502,106 @@ theorem flatten_reverse_length {α} (chain : List (List α)) :
     chain.reverse.flatten.length = chain.flatten.length := by
   simp [List.length_flatten, List.sum_reverse]
 
+/-! ## 6. `assignThrough` / `assignExisting` unfolded -/
+
+/-- the fuel `assignThrough` hands to the resolver -/
+def throughFuel (d : Doc) (ts : Node) (wl : Bool) : Nat :=
+  (scopeChain d ts wl).foldl (fun n s => n + s.length) 1
+
+theorem assignThrough_apply (ts : Node) (wl : Bool) (name : Text) (v : Node) (d : Doc) :
+    assignThrough ts wl name v d =
+      if (scopeChain d ts wl).isEmpty then (.ok false, d)
+      else match resolveIdent (throughFuel d ts wl) (chainEnv d ts wl) name [] with
+        | some bid => (.ok true, d.updBind bid v)
+        | none => (.ok false, d) := by
+  simp only [assignThrough, EditM.bind_apply, EditM.get_apply, throughFuel, chainEnv]
+  by_cases h : (scopeChain d ts wl).isEmpty = true
+  · simp only [h, if_true]; rfl
+  · simp only [h]
+    cases resolveIdent (List.foldl (fun n s => n + s.length) 1 (scopeChain d ts wl))
+      (scopeChain d ts wl).reverse name [] <;> rfl
+
+theorem chainEnv_nil_of_isEmpty {d : Doc} {ts : Node} {wl : Bool}
+    (h : (scopeChain d ts wl).isEmpty = true) : chainEnv d ts wl = [] := by
+  simp only [chainEnv, List.isEmpty_iff.1 h, List.reverse_nil]
+
+theorem resolveIdent_nil (fuel : Nat) (name : Text) (vis : List Nat) :
+    resolveIdent fuel [] name vis = none := by
+  cases fuel <;> simp [resolveIdent, scanChain]
+
+/-- `assignThrough` in one match (an empty chain resolves nothing) -/
+theorem assignThrough_apply' (ts : Node) (wl : Bool) (name : Text) (v : Node) (d : Doc) :
+    assignThrough ts wl name v d =
+      match resolveIdent (throughFuel d ts wl) (chainEnv d ts wl) name [] with
+      | some bid => (.ok true, d.updBind bid v)
+      | none => (.ok false, d) := by
+  rw [assignThrough_apply]
+  by_cases h : (scopeChain d ts wl).isEmpty = true
+  · simp only [h, if_true, chainEnv_nil_of_isEmpty h, resolveIdent_nil]
+  · simp only [h]; rfl
+
+theorem throughFuel_ge (d : Doc) (ts : Node) (wl : Bool) :
+    (chainEnv d ts wl).flatten.length < throughFuel d ts wl := by
+  simp only [throughFuel, chain_fuel, chainEnv, flatten_reverse_length]; omega
+
+/-- SPEC side: the bindings `set_value` hands to `_set_value_in_attrset` as `let_bindings` -/
+def letBindings (d : Doc) : List Node :=
+  match d.topScope with
+  | some s => s.filter (·.isBind)
+  | none => d.scope.filter (·.isBind)
+
+/-- `assignExisting` on a binding that holds a reference, in terms of the resolver's answer -/
+theorem assignExisting_ref (ts parent : Node) (wl : Bool) (rid : Nat) (nm : Text) (ne : Bool)
+    (name : Text) (bf af : Payload) (v : Node) (d : Doc) :
+    assignExisting ts parent wl (.bind rid nm ne (.ident name) bf af) v d =
+      match resolveIdent (throughFuel d ts wl) (chainEnv d ts wl) name [] with
+      | some bid => (.ok (), d.updBind bid v)
+      | none =>
+        match (letBindings d).find? (·.bindName? == some name) with
+        | some outer => match outer.bindId? with
+          | some oid => (.ok (), d.updBind oid v)
+          | none => (.ok (), d)
+        | none =>
+          match findBinding parent.setValues name with
+          | some sib => match sib.bindId? with
+            | some sid' => (.ok (), d.updBind sid' v)
+            | none => (.ok (), d)
+          | none => (.ok (), d.updBind rid v) := by
+  simp only [assignExisting, bindId?, bindValue?, EditM.bind_apply, assignThrough_apply']
+  cases resolveIdent (throughFuel d ts wl) (chainEnv d ts wl) name [] with
+  | some bid => rfl
+  | none =>
+    simp only [Bool.false_eq_true, if_false, EditM.bind_apply, EditM.get_apply, letBindings]
+    cases d.topScope with
+    | some s =>
+      simp only
+      cases List.find? (fun x => x.bindName? == some name) (List.filter (fun x => x.isBind) s) with
+      | some outer => simp only; cases outer <;> rfl
+      | none =>
+        simp only
+        cases findBinding parent.setValues name with
+        | some sib => simp only; cases sib <;> rfl
+        | none => rfl
+    | none =>
+      simp only
+      cases List.find? (fun x => x.bindName? == some name) (List.filter (fun x => x.isBind) d.scope) with
+      | some outer => simp only; cases outer <;> rfl
+      | none =>
+        simp only
+        cases findBinding parent.setValues name with
+        | some sib => simp only; cases sib <;> rfl
+        | none => rfl
+
+/-- a plain single-segment `set` on a binding that holds a reference is `assignExisting` on it -/
+theorem setValue_ref_single (d : Doc) (p k : Text) (v : Node) (rid : Nat) (nm : Text) (ne : Bool)
+    (name : Text) (bf af : Payload)
+    (hnt : d.noTarget = none) (hsp : splitScopeNpath p = .ok none)
+    (hf : formatNPath currentAnchor p = .ok [k])
+    (hr : findAttrpathRoot d.target.setValues k = none)
+    (hb : findBinding d.target.setValues k = some (.bind rid nm ne (.ident name) bf af)) :
+    setValue p (.one v) d =
+      assignExisting d.target d.target true (.bind rid nm ne (.ident name) bf af) v d := by
+  obtain ⟨sid, hs⟩ := setSid_of_setValues_ne d.target (findBinding_some_ne hb)
+  rw [setValue_plain p v d hnt hsp, setValueInAttrset_single d.target true p v k sid hf hs hr, hb]
+
 end Nima
